@@ -7,10 +7,12 @@ CONSTANTS
   Lifetime = TRUE
   Post = TRUE
   Syncs = {TRUE}
+  SrcKinds = {"coop", "silent"}
   RaceHandoff = TRUE
   LatchMsg = TRUE
   LatchAck = TRUE
   CloseSendOnExit = TRUE
   CancelOnReturn = TRUE
+  FmsgWakesOnLatch = TRUE
 INVARIANTS InOrder NoUnknownForwarded NoStuck EveryScriptEnds
 CHECK_DEADLOCK FALSE
